@@ -696,10 +696,19 @@ struct Fp {
     f: Option<u64>,
     b: Option<bool>,
     s: Option<String>,
+    /// representation: 1 = a typed `TraceId`, 2 = a typed `SpanId`, 0 = anything else
+    tag: u8,
 }
 
 fn fp(v: &Value) -> Fp {
     Fp {
+        tag: if v.downcast_ref::<TraceId>().is_some() {
+            1
+        } else if v.downcast_ref::<SpanId>().is_some() {
+            2
+        } else {
+            0
+        },
         disp: v.to_string(),
         dbg: format!("{:?}", v),
         i: v.by_ref().cast::<i64>(),
@@ -747,8 +756,20 @@ fn viol(r: &mut Report, cx: &Cx, what: &str, view: &str, detail: String) {
         o.insert("view".into(), json!(view));
         o.insert("detail".into(), json!(detail.clone()));
     }
-    r.violation(&format!("C02:{}:{}:{}", what, view, cx.kind), &detail, case);
+    // ambient snapshots: the signature also names the class of the key that was looked up
+    let class = KEY_CLASS.with(|c| c.get());
+    if cx.kind.starts_with("ambient-snapshot") && !class.is_empty() {
+        r.violation(&format!("C02:{}:{}:{}:{}", what, view, cx.kind, class), &detail, case);
+    } else {
+        r.violation(&format!("C02:{}:{}:{}", what, view, cx.kind), &detail, case);
+    }
 }
+
+thread_local! {
+    static KEY_CLASS: Cell<&'static str> = const { Cell::new("") };
+}
+
+const ID_KEYS: [&str; 3] = ["trace_id", "span_id", "span_parent"];
 
 /// The coherence check of one view of one collection. Returns what enumeration yielded.
 fn check_view<P: Props + ?Sized>(r: &mut Report, cx: &Cx, p: &P, view: &str) -> Vec<(String, Fp)> {
@@ -789,7 +810,11 @@ fn check_view<P: Props + ?Sized>(r: &mut Report, cx: &Cx, p: &P, view: &str) -> 
 
     // 3. lookups
     let probes = probe_keys(cx, &list);
+    let ambient = cx.kind.starts_with("ambient-snapshot");
     for (n, k) in probes.iter().enumerate() {
+        if ambient {
+            KEY_CLASS.with(|c| c.set(if ID_KEYS.contains(&k.as_str()) { "id-key" } else { "ordinary-key" }));
+        }
         let want = first.get(k.as_str()).map(|i| &list[*i].1);
         let got = match n % 3 {
             0 => p.get(k.as_str()),
@@ -863,6 +888,30 @@ fn check_view<P: Props + ?Sized>(r: &mut Report, cx: &Cx, p: &P, view: &str) -> 
                     }
                 }
             }
+            if ambient {
+                // what span machinery reads from a snapshot
+                r.observe("pulls", 4);
+                let pulled = p.pull::<TraceId, _>(key);
+                let via = p.get(key).and_then(|v| v.cast::<TraceId>());
+                if pulled != via {
+                    bad.push(format!("TraceId: pull {:?}, get().cast() {:?}", pulled, via));
+                }
+                let pulled = p.pull::<SpanId, _>(key);
+                let via = p.get(key).and_then(|v| v.cast::<SpanId>());
+                if pulled != via {
+                    bad.push(format!("SpanId: pull {:?}, get().cast() {:?}", pulled, via));
+                }
+                let pulled = p.pull::<u64, _>(key);
+                let via = p.get(key).and_then(|v| v.cast::<u64>());
+                if pulled != via {
+                    bad.push(format!("u64: pull {:?}, get().cast() {:?}", pulled, via));
+                }
+                let pulled = p.pull::<&str, _>(key);
+                let via = p.get(key).and_then(|v| v.cast::<&str>());
+                if pulled != via {
+                    bad.push(format!("&str: pull {:?}, get().cast() {:?}", pulled, via));
+                }
+            }
             {
                 let pulled = p.pull::<Value, _>(key).map(|v| fp(&v));
                 if pulled.as_ref() != want {
@@ -880,6 +929,8 @@ fn check_view<P: Props + ?Sized>(r: &mut Report, cx: &Cx, p: &P, view: &str) -> 
             }
         }
     }
+
+    KEY_CLASS.with(|c| c.set(""));
 
     // 3b. lookups with keys that share storage with the collection's own keys: the `Str`s the
     // visitor was handed, and (when the case has a shared key buffer) every occurrence of the
